@@ -578,6 +578,12 @@ class Exec:
             return VBool(t == 'true')
         if t == '()':
             return VAgg('tuple', None, [])
+        if t.startswith('ZeroSized: '):
+            body = t[len('ZeroSized: '):]
+            m = re.match(r'\{closure@[^}]*\}', body)
+            if m:
+                return VFn(m.group(0), VAgg('closure', None, []))
+            return VAgg(base_ident(body), None, [])
         if t.startswith("'"):
             body = t[1:-1]
             ch = decode_char(body)
@@ -1021,6 +1027,7 @@ class Exec:
         """returns list of (state, value, kind, msg); kind in ok|panic|bound"""
         _, dest, callee, argops, ret = t
         args = [self.operand(st, fr, a) for a in argops]
+        self._argtys = [self.place_ty(fr, a[1]) if a[0] in ('copy', 'move') else '' for a in argops]
         if callee[0] != 'fnitem':
             fv = self.operand(st, fr, callee)
             if isinstance(fv, VFn):
@@ -1082,7 +1089,9 @@ class Exec:
         sname = strip_generics(name)
         key = sname
         terms = [self.to_term(st, a) for a in args]
-        stateful = any(isinstance(a, VRef) and self.is_mut_arg(fr, a) for a in args)
+        argtys = getattr(self, '_argtys', [])
+        mut_idx = [i for i, t in enumerate(argtys) if i < len(args) and t.strip().startswith('&mut')]
+        stateful = bool(mut_idx)
         n = self.occ.get(key, 0)
         occ_id = 0
         # functional consistency: same callee + same argument terms => same result term
@@ -1097,6 +1106,14 @@ class Exec:
         term = ('app', sname, tuple(terms), occ_id)
         v = self.coerce(VSym(term, dest_ty), dest_ty)
         st.calls.append(CallRec(sname, terms, term, fr.depth, short(fr.func.name), False, args))
+        for i in mut_idx:
+            a = args[i]
+            if isinstance(a, VRef):
+                # the callee may have mutated the pointee: havoc it (opaque post-state)
+                try:
+                    self.store(st, a.cell, a.path, VSym(('post', term, i), deref_ty(argtys[i])))
+                except Refuse:
+                    st.notes.append('could not havoc &mut argument %d of %s' % (i, sname))
         if why.startswith('ambiguous'):
             st.notes.append('ambiguous callee %s (%s)' % (sname, why))
         return [(st, v, 'ok', '')]
